@@ -5,7 +5,7 @@ import (
 	"errors"
 	"fmt"
 	"reflect"
-		"strings"
+	"strings"
 
 	"github.com/bytedance/sonic/ast"
 
@@ -344,7 +344,7 @@ func c15ops() []c15op {
 		for _, rec := range []bool{false, true} {
 			rec := rec
 			add(c15op{name: fmt.Sprintf("SortKeys(%v)%s", rec, sfx), kind: "SortKeys", child: child, mutates: true,
-				ok: func(d *c15doc, root *mnode) bool { return !root.hasDupKeys() }, // order among equal keys is unspecified
+				ok:   func(d *c15doc, root *mnode) bool { return !root.hasDupKeys() }, // order among equal keys is unspecified
 				impl: func(n *ast.Node) string { return errc(n.SortKeys(rec)) },
 				model: func(m *mnode) string {
 					if !isObj(m) {
